@@ -392,9 +392,9 @@ def hex_from_temp(value: bool | float | None) -> HexStr4:
         return "7EFF"
     if not isinstance(value, float | int):
         raise TypeError(f"Invalid temp: {value} is not a float")
-    # if not -(2**7) <= value < 2**7:  # TODO: tighten range
-    #     raise ValueError(f"Invalid temp: {value} is out of range")
     temp = round(value * 100)  # not int(): 0.29 * 100 == 28.999...
+    if not -(2**15) <= temp < 2**15:  # would wrap into a different (valid) temperature
+        raise ValueError(f"Invalid temp: {value} is out of range")
     return f"{temp if temp >= 0 else temp + 2 ** 16:04X}"
 
 
